@@ -15,18 +15,22 @@ import (
 )
 
 type shape struct {
-	name   string
-	writes []M   // set / insert / delete ops (without txn id)
-	locks  []int // keys only locked (pessimistic) and not written
+	name      string
+	writes    []M   // set / insert / delete ops (without txn id)
+	locks     []int // keys only locked (pessimistic) and not written
+	lockFirst []int // pessimistic: keys locked by a first call (the primary is chosen among them), the rest by a second call
 }
 
 var shapes = []shape{
-	{"put1", []M{{"c": "set", "k": 1, "v": 11}}, nil},
-	{"put2", []M{{"c": "set", "k": 1, "v": 11}, {"c": "set", "k": 3, "v": 13}}, nil},
-	{"mix3", []M{{"c": "set", "k": 2, "v": 12}, {"c": "delete", "k": 1}, {"c": "insert", "k": 3, "v": 13}}, nil},
-	{"put4", []M{{"c": "set", "k": 1, "v": 11}, {"c": "set", "k": 2, "v": 12}, {"c": "set", "k": 3, "v": 13}, {"c": "set", "k": 4, "v": 14}}, nil},
-	{"lockonly", []M{{"c": "set", "k": 3, "v": 13}}, []int{2}},
-	{"insdel", []M{{"c": "insert", "k": 3, "v": 13}, {"c": "delete", "k": 3}, {"c": "set", "k": 4, "v": 14}}, nil},
+	{"put1", []M{{"c": "set", "k": 1, "v": 11}}, nil, nil},
+	{"put2", []M{{"c": "set", "k": 1, "v": 11}, {"c": "set", "k": 3, "v": 13}}, nil, nil},
+	{"mix3", []M{{"c": "set", "k": 2, "v": 12}, {"c": "delete", "k": 1}, {"c": "insert", "k": 3, "v": 13}}, nil, nil},
+	{"put4", []M{{"c": "set", "k": 1, "v": 11}, {"c": "set", "k": 2, "v": 12}, {"c": "set", "k": 3, "v": 13}, {"c": "set", "k": 4, "v": 14}}, nil, nil},
+	{"lockonly", []M{{"c": "set", "k": 3, "v": 13}}, []int{2}, nil},
+	{"insdel", []M{{"c": "insert", "k": 3, "v": 13}, {"c": "delete", "k": 3}, {"c": "set", "k": 4, "v": 14}}, nil, nil},
+	// the primary is the largest key (pessimistic: the key locked first), so its batch is the last one in key order
+	{"lastprimary", []M{{"c": "set", "k": 4, "v": 14}, {"c": "set", "k": 1, "v": 11}, {"c": "set", "k": 3, "v": 13}}, nil, []int{4}},
+	{"midprimary", []M{{"c": "set", "k": 3, "v": 13}, {"c": "set", "k": 1, "v": 11}, {"c": "delete", "k": 4}}, []int{2}, []int{3}},
 }
 var layouts = [][]int{{}, {3}, {2, 3, 4}}
 var baseData = map[int]int{1: 1, 2: 2, 4: 4}
@@ -43,7 +47,23 @@ func victimOps(sh shape, pess bool) []M {
 				ks = append(ks, geti(w, "k"))
 			}
 		}
-		ops = append(ops, M{"c": "lock", "txn": "v", "ks": ks, "retvals": false, "nowait": true})
+		if len(sh.lockFirst) > 0 {
+			ops = append(ops, M{"c": "lock", "txn": "v", "ks": sh.lockFirst, "retvals": false, "nowait": true})
+			rest := []int{}
+			for _, k := range ks {
+				in := false
+				for _, f := range sh.lockFirst {
+					in = in || f == k
+				}
+				if !in {
+					rest = append(rest, k)
+				}
+			}
+			ks = rest
+		}
+		if len(ks) > 0 {
+			ops = append(ops, M{"c": "lock", "txn": "v", "ks": ks, "retvals": false, "nowait": true})
+		}
 	}
 	for _, wr := range sh.writes {
 		o := M{"txn": "v"}
@@ -200,7 +220,11 @@ func runC03(w *World, rng *rand.Rand, div int) {
 					if (cnt+int(rng.Int63()%int64(div)))%div != 0 {
 						continue
 					}
-					w.reset(M{"kind": "c03", "shape": sh.name, "pess": pess, "i1": sc.i1, "f1": sc.f1, "i2": sc.i2, "f2": sc.f2, "rpcs": n}, lay)
+					benign := func(f string) bool {
+						return f == "" || f == "not_leader" || f == "epoch_not_match" || f == "server_busy" || f == "stale_command" || f == "split"
+					}
+					w.reset(M{"kind": "c03", "shape": sh.name, "pess": pess, "i1": sc.i1, "f1": sc.f1, "i2": sc.i2, "f2": sc.f2, "rpcs": n,
+						"lossless": benign(sc.f1) && benign(sc.f2)}, lay)
 					r := &Run{w: w, txns: map[string]*Txn{}}
 					r.setup(baseData)
 					var f1, f2 int32
@@ -241,36 +265,57 @@ func runC06(w *World, rng *rand.Rand, n int) {
 		}
 		qid := fmt.Sprintf("q%d", sc)
 		agg := false
+		var plocked []int
 		steps := 2 + rng.Intn(6)
 		for i := 0; i < steps; i++ {
 			k := 1 + rng.Intn(4)
-			switch x := rng.Intn(14); {
-			case x < 2: // the contender takes a lock that will make the subject's next lock call fail
+			switch x := rng.Intn(15); {
+			case x < 3: // the contender takes a lock that will make the subject's next lock call fail
 				startContender()
 				r.do(M{"c": "lock", "txn": qid, "ks": []int{k}, "retvals": false, "nowait": true})
-			case x < 3: // the contender commits a newer version (write conflicts for the subject)
+			case x < 4: // the contender commits a newer version (write conflicts for the subject)
 				r.seq("q2", M{"c": "begin", "txn": fmt.Sprintf("w%d_%d", sc, i), "pess": false}, M{"c": "set", "txn": fmt.Sprintf("w%d_%d", sc, i), "k": k, "v": 90 + i},
 					M{"c": "commit", "txn": fmt.Sprintf("w%d_%d", sc, i)})
-			case x < 8:
+			case x < 9:
 				if pess {
 					ks := rng.Perm(4)[:1+rng.Intn(3)]
 					for j := range ks {
 						ks[j]++
 					}
-					r.do(M{"c": "lock", "txn": "p", "ks": ks, "retvals": rng.Intn(2) == 0, "nowait": rng.Intn(4) != 0, "waitms": 25})
+					if len(plocked) > 0 && rng.Intn(2) == 0 { // name a key that is already held again, together with new ones
+						ks = append([]int{plocked[rng.Intn(len(plocked))]}, ks...)
+						seen := map[int]bool{}
+						uniq := ks[:0]
+						for _, k := range ks {
+							if !seen[k] {
+								seen[k] = true
+								uniq = append(uniq, k)
+							}
+						}
+						ks = uniq
+					}
+					ret := r.do(M{"c": "lock", "txn": "p", "ks": ks, "retvals": rng.Intn(2) == 0, "nowait": rng.Intn(4) != 0, "waitms": 25})
+					if ret["class"] == "nil" {
+						plocked = append(plocked, ks...)
+					} else if len(plocked) > 0 && rng.Intn(2) == 0 {
+						// after a failed lock call, somebody else tries to write a key the subject still holds: it must not get through
+						wk := plocked[rng.Intn(len(plocked))]
+						id := fmt.Sprintf("x%d_%d", sc, i)
+						r.seq("q3", M{"c": "begin", "txn": id, "pess": false}, M{"c": "set", "txn": id, "k": wk, "v": 80 + i}, M{"c": "commit", "txn": id})
+					}
 				} else {
 					r.do(M{"c": "set", "txn": "p", "k": k, "v": 50 + i})
 				}
-			case x < 10:
-				r.do(M{"c": "set", "txn": "p", "k": k, "v": 50 + i})
 			case x < 11:
-				r.do(M{"c": "delete", "txn": "p", "k": k})
+				r.do(M{"c": "set", "txn": "p", "k": k, "v": 50 + i})
 			case x < 12:
+				r.do(M{"c": "delete", "txn": "p", "k": k})
+			case x < 13:
 				if pess && !agg {
 					r.do(M{"c": "agg_start", "txn": "p"})
 					agg = true
 				}
-			case x < 13:
+			case x < 14:
 				if agg {
 					r.do(M{"c": "agg_retry", "txn": "p"})
 				}
@@ -287,7 +332,7 @@ func runC06(w *World, rng *rand.Rand, n int) {
 		if agg {
 			r.do(M{"c": []string{"agg_done", "agg_cancel"}[rng.Intn(2)], "txn": "p"})
 		}
-		if rng.Intn(3) == 0 {
+		if rng.Intn(2) == 0 {
 			r.do(M{"c": "rollback", "txn": "p"})
 		} else {
 			r.do(M{"c": "commit", "txn": "p"})
